@@ -625,7 +625,17 @@ def main():
             txt = extract.mask(open(os.path.join(extract.REPO, pin["file"]), encoding="utf-8").read(), literals=False)
         except OSError:
             txt = ""
-        if re.search(pin["pattern"], txt):
+        if "fn" in pin:
+            # the text of a whole function is pinned by its hash (code outside the verifier's reach whose shape the contracts assume)
+            try:
+                sf = extract.SourceFile.get(pin["file"])
+                it = sf.find(pin["fn"])
+                ok = hashlib.sha256(sf.src[it.start:it.end].encode()).hexdigest()[:16] == pin["sha"]
+            except Exception:
+                ok = False
+        else:
+            ok = bool(re.search(pin["pattern"], txt))
+        if ok:
             frame_notes.append("source pin `%s`: present in %s" % (pin["name"], pin["file"]))
         else:
             undecided.append("source pin lost: %s (%s): %s" % (pin["name"], pin["file"], pin["why"]))
